@@ -7,6 +7,7 @@ mod prog;
 mod pure;
 mod ring;
 mod util;
+mod xxh;
 
 fn main() {
     let args: Vec<String> = std::env::args().collect();
@@ -21,6 +22,7 @@ fn main() {
         "ring" => ring::run_line,
         "prog" => prog::run_line,
         "codec" => codec::run_line,
+        "xxh" => xxh::run_line,
         _ => {
             eprintln!("usage: zh <pure> < cases");
             std::process::exit(2);
